@@ -319,7 +319,25 @@ def gen_rec_nested(rng, faults=True, n_max=10, **kw):
     return gen_rec(rng, faults=faults, n_max=n_max)
 
 
-def overlay_rec(rng, spec, tries=40):
+def gen_oneof_rec(rng, faults=True, n_max=9, **kw):
+    """a recurrent subgraph that lies completely inside the private sub-pipeline of one one-of candidate (or switch
+    case): start, path, destination and all their readers are private nodes of that sub-pipeline"""
+    base = rng.choice(['oneof'])
+    for _ in range(80):
+        spec = gen_constructs(rng, dict(CFG[base], p_shared_prefix=0.0), faults=faults, n_max=n_max, **kw)
+        main = main_scope_nodes(spec)
+        private = {n['name'] for n in spec['nodes']} - main
+
+        def ok(start, dest, P, consumers_of_P):
+            return start in private and dest in private and P <= private and consumers_of_P <= private
+
+        if overlay_rec(rng, spec, accept=ok):
+            spec['class'] = 'oneof_rec'
+            return spec
+    return gen_constructs(rng, CFG['oneof'], faults=faults, n_max=n_max, **kw)
+
+
+def overlay_rec(rng, spec, tries=40, accept=None):
     """turn one In edge dest->consumer of an existing program into a recurrent subgraph (start, dest);
     returns True on success.  No outside reader of an inner node unless downstream of dest."""
     nodes = {n['name']: n for n in spec['nodes']}
@@ -343,6 +361,8 @@ def overlay_rec(rng, spec, tries=40):
             continue
         P = path_set(spec, start, dest)
         if _outside_reader(edges, P, dest, _closure(succ, dest)):
+            continue
+        if accept is not None and not accept(start, dest, P, {b for a, b in edges if a in P}):
             continue
         cons = [c for c in sorted(succ[dest]) if any(p[1][0] == 'In' and p[1][1] == dest for p in nodes[c]['params'])]
         c = rng.choice(cons)
@@ -866,6 +886,7 @@ GENERATORS['hub'] = gen_hub
 GENERATORS['corpus'] = gen_corpus
 GENERATORS['rec_mixed'] = gen_rec_mixed
 GENERATORS['rec_inner'] = gen_rec_inner
+GENERATORS['oneof_rec'] = gen_oneof_rec
 
 CFG = {
     'switch': {'name': 'switch', 'constructs': ['switch'], 'shared': False, 'p_nest': 0.25, 'max_nest': 2},
